@@ -2090,11 +2090,14 @@ class Interp:
                 return PList(self, a.elems + b.elems, frozen=a.frozen)
             if a.frozen != b.frozen:
                 self.raise_("TypeError", "can only concatenate list to list / tuple to tuple")
+            if a.sym_n is None:
+                # concrete prefix: the live part of b follows it directly - no fork on b's length
+                if b.sym_n is None:
+                    return PList(self, a.elems + b.elems, frozen=a.frozen)
+                return PList(self, a.elems + b.elems, sym_n=z3.simplify(b.sym_n + len(a.elems)), frozen=a.frozen)
             if b.sym_n is not None:
                 b = self.list_copy(b, b.frozen)
                 self.concretize_len(b)
-            if a.sym_n is None:
-                return PList(self, a.elems + b.elems, frozen=a.frozen)
             r = PList(self, list(a.elems) + [None] * len(b.elems), sym_n=a.sym_n, frozen=a.frozen)
             for x in b.elems:
                 self.list_append(r, x)
